@@ -88,6 +88,9 @@ func (b Buffer) String() string {
 // contents and reinitializes the buffer. This saves
 // a memory allocation compared to RedactableBytes().
 func (b *Buffer) TakeRedactableBytes() m.RedactableBytes {
+	if verifOn {
+		defer verifTrace(b, "TK", nil, 0)()
+	}
 	b.finalize()
 	r := b.buf
 	b.buf = nil
@@ -103,6 +106,9 @@ func (b *Buffer) TakeRedactableString() m.RedactableString {
 	if b == nil {
 		// Special case, useful in debugging.
 		return "<nil>"
+	}
+	if verifOn {
+		defer verifTrace(b, "TK", nil, 0)()
 	}
 	b.finalize()
 	r := *(*m.RedactableString)(unsafe.Pointer(&b.buf))
@@ -129,6 +135,9 @@ func (b *Buffer) Cap() int {
 // needed. The return value n is the length of p; err is always nil. If the
 // buffer becomes too large, Write will panic with ErrTooLarge.
 func (b *Buffer) Write(p []byte) (n int, err error) {
+	if verifOn {
+		defer verifTrace(b, "W", p, 0)()
+	}
 	b.startWrite()
 	m, ok := b.tryGrowByReslice(len(p))
 	if !ok {
@@ -141,6 +150,9 @@ func (b *Buffer) Write(p []byte) (n int, err error) {
 // needed. The return value n is the length of s; err is always nil. If the
 // buffer becomes too large, WriteString will panic with ErrTooLarge.
 func (b *Buffer) WriteString(s string) (n int, err error) {
+	if verifOn {
+		defer verifTrace(b, "W", []byte(s), 0)()
+	}
 	b.startWrite()
 	m, ok := b.tryGrowByReslice(len(s))
 	if !ok {
@@ -151,6 +163,9 @@ func (b *Buffer) WriteString(s string) (n int, err error) {
 
 // WriteByte emits a single byte.
 func (b *Buffer) WriteByte(s byte) error {
+	if verifOn {
+		defer verifTrace(b, "WB", nil, int(s))()
+	}
 	b.startWrite()
 	if b.mode == UnsafeEscaped &&
 		(s >= utf8.RuneSelf ||
@@ -169,6 +184,9 @@ func (b *Buffer) WriteByte(s byte) error {
 
 // WriteRune emits a single rune.
 func (b *Buffer) WriteRune(s rune) error {
+	if verifOn {
+		defer verifTrace(b, "WR", nil, int(s))()
+	}
 	b.startWrite()
 	l := utf8.RuneLen(s)
 	if l < 0 {
@@ -253,6 +271,9 @@ func (b *Buffer) GetMode() OutputMode {
 
 // SetMode changes the output mode.
 func (b *Buffer) SetMode(newMode OutputMode) {
+	if verifOn {
+		defer verifTrace(b, "SM", nil, int(newMode))()
+	}
 	if b.mode == newMode {
 		// noop
 		return
@@ -271,6 +292,9 @@ func (b *Buffer) SetMode(newMode OutputMode) {
 // but it retains the underlying storage for use by future writes.
 // It also resets the output mode to UnsafeEscaped.
 func (b *Buffer) Reset() {
+	if verifOn {
+		defer verifTrace(b, "RST", nil, 0)()
+	}
 	b.buf = b.buf[:0]
 	b.validUntil = 0
 	b.mode = UnsafeEscaped
